@@ -2289,3 +2289,41 @@ def n_int_pow(ex, callee, a, env):
                 raise Unsupported('saturating_pow overflow on a symbolic base')
         acc = t.f[0]
     return Some(acc) if op == 'checked_pow' else acc
+
+
+@native(r'^(core::)?str::<impl str>::(strip_suffix|strip_prefix)(::<.*>)?$', 'str::strip_prefix / strip_suffix')
+def n_strip_affix(ex, callee, a, env):
+    sl = as_slice(a[0])
+    pat = _pattern_bytes(a[1])
+    items = list(sl.items())
+    n = len(pat)
+    if n > len(items):
+        return NONE()
+    if 'strip_suffix' in callee:
+        if not ex.truth(_all_eq(items[len(items) - n:], pat)):
+            return NONE()
+        return Some(Slice(sl.buf, sl.start, sl.len - n, True))
+    if not ex.truth(_all_eq(items[:n], pat)):
+        return NONE()
+    return Some(Slice(sl.buf, sl.start + n, sl.len - n, True))
+
+
+@native(r'(f32|f64)(::<.*>)?::(is_normal|is_subnormal)$|<impl f(32|64)>::(is_normal|is_subnormal)$', 'float::is_normal / is_subnormal')
+def n_is_normal(ex, callee, a, env):
+    f = deref(a[0])
+    if not isinstance(f, FloatVal):
+        raise Unsupported(f'float classification of {f!r}')
+    bits = f.bits
+    if bits is None and f.src is not None and all(isinstance(b, int) for b in f.src):
+        r = parse_float_model(ex, list(f.src), f.ty)
+        bits = r.f[0].bits if r.variant == 'Ok' else None
+    if bits is None:
+        raise Unsupported('is_normal / is_subnormal of a value whose text is symbolic')
+    eb, mb = (8, 23) if f.ty == 'f32' else (11, 52)
+    sub = callee.endswith('is_subnormal')
+    if isinstance(bits, int):
+        e = (bits >> mb) & ((1 << eb) - 1)
+        m = bits & ((1 << mb) - 1)
+        return (e == 0 and m != 0) if sub else (0 < e < (1 << eb) - 1)
+    fp = z3.fpBVToFP(bits, z3.Float32() if f.ty == 'f32' else z3.Float64())
+    return z3.fpIsSubnormal(fp) if sub else z3.fpIsNormal(fp)
